@@ -148,7 +148,7 @@ def generate(seed: int, tier: str = "quick") -> dict:
             params["n_modes"] = max(1, min(int(params["n_modes"]), *eff))
             if cfg.get("rot_params"):
                 pass
-    multi_chunk_features = chunks["mode"] in ("feature", "both", "allfeat", "elem") or any(
+    multi_chunk_features = chunks["mode"] in ("feature", "both", "allfeat", "elem", "all", "irregular") or chunks.get("items") or any(
         d.get("container") in ("ds", "list") for d in descs.values() if d.get("kind") != "weights")
     if params.get("solver") == "full" and multi_chunk_features and rng.random() < 0.8:
         params["solver"] = "randomized"
@@ -163,11 +163,17 @@ def generate(seed: int, tier: str = "quick") -> dict:
         if wk in descs:
             descs["c:" + wk] = dict(descs[wk], of=of, chunked=rng.random() < 0.5)
     # unseen data may arrive with another chunking than the training data
-    if rng.random() < 0.4:
+    r_un = rng.random()
+    if r_un < 0.4:
         other = space.draw_chunks(rng, tiny=tiny)
         for k in ("c:N0", "c:NX0", "c:NY0"):
             if k in descs:
                 descs[k]["chunks"] = other
+    elif r_un < 0.5:
+        # ... or held in memory although the model was fitted on dask-backed data
+        for k in ("c:N0", "c:NX0", "c:NY0"):
+            if k in descs:
+                descs[k]["chunks"] = None
     gen.sanitize_descs(descs)
     cfg.update(descs=descs, fit=fit, new=new, params=params, chunks=chunks)
     cfg["rot_params"] = None
@@ -339,6 +345,20 @@ def execute(cfg: dict, *, stop_at_first=True, trace=False) -> RunResult:
 
     fit = cfg["fit"]
     strict_lazy = deferred and not params.get("check_nans", True)
+    for k_, d_ in cfg["descs"].items():
+        if not k_.startswith("c:") or d_.get("kind") == "weights":
+            continue
+        ch_ = d_.get("chunks")
+        if ch_ is None:
+            probes.add("unseen data held in memory, model fitted on dask-backed data")
+        elif ch_.get("items") and d_.get("container") in ("ds", "list") and len(d_["fields"]) >= 2:
+            its = [ch_["items"][i % len(ch_["items"])] for i in range(len(d_["fields"]))]
+            if "memory" in its and not all(i == "memory" for i in its):
+                probes.add("mixed input: in-memory item next to dask-backed ones")
+            elif len(set(its)) > 1:
+                probes.add("items of one input chunked differently")
+        elif ch_.get("mode") == "irregular":
+            probes.add("blocks of unequal sizes")
 
     # ---- reference: the same class, same parameters, the same data held in memory -----------------
     with core.simulated_ambient(clock):
@@ -626,7 +646,7 @@ def execute(cfg: dict, *, stop_at_first=True, trace=False) -> RunResult:
     res.stats = counts
     f = sched.Config.from_json(cfg["sched"])
     mix = "+".join(k for k in ("reexec", "transient", "stall") if getattr(f, k) > 0) or "none"
-    cell = "|".join([spec.name + ("+rot" if cfg["rot_params"] else ""), cfg["chunks"]["mode"],
+    cell = "|".join([spec.name + ("+rot" if cfg["rot_params"] else ""), cfg["chunks"]["mode"] + ("+items" if cfg["chunks"].get("items") else ""),
                      "deferred" if deferred else "eager", f"nan{int(bool(params.get('check_nans', True)))}",
                      f"W{f.W}", mix])
     extra = res.coverage.get("interleavings_extra", [])
@@ -676,9 +696,9 @@ def simplifications(cfg: dict):
         yield variant(fit=dict(cfg["fit"], w=None, wY=None))
     if cfg["chunks"]["mode"] != "single":
         c = copy.deepcopy(cfg)
-        c["chunks"] = dict(c["chunks"], mode="single")
+        c["chunks"] = {"mode": "single", "n": c["chunks"].get("n", 2)}
         for k, d in c["descs"].items():
-            if k.startswith("c:") and d.get("kind") != "weights":
+            if k.startswith("c:") and d.get("kind") != "weights" and d.get("chunks") is not None:
                 d["chunks"] = c["chunks"]
         yield c
     for key in ("attrs", "coord_attrs", "ds_attrs", "extra_coord", "perm_seed", "multiindex", "nan_sample_new",
